@@ -17,6 +17,10 @@ pub struct FdCfgNs {
     pub window: usize,
     pub max_interval_ns: u64,
     pub initial_interval_ns: u64,
+    /// The observer is configured with an application liveness predicate (a READY key) that the
+    /// member never satisfies: the failure detector's live/dead classification must not depend on it.
+    #[serde(default)]
+    pub predicate: bool,
 }
 
 impl FdCfgNs {
@@ -62,6 +66,10 @@ pub enum FdEv {
 pub struct FdCase {
     pub cfg: FdCfgNs,
     pub events: Vec<FdEv>,
+    /// Where the member's heartbeat counter starts: 0 -> 0, 1 -> 2^63 - 3, 2 -> 2^63 + 2,
+    /// 3 -> u64::MAX - 70,000 (heartbeats are arbitrary u64 values on the wire).
+    #[serde(default)]
+    pub hb_base: u8,
 }
 
 fn observer(cfg: &FdCfgNs, name: &str) -> Chitchat {
@@ -82,7 +90,7 @@ fn observer(cfg: &FdCfgNs, name: &str) -> Chitchat {
         ),
         marked_for_deletion_grace_period: Duration::from_secs(3600),
         catchup_callback: None,
-        extra_liveness_predicate: None,
+        extra_liveness_predicate: if cfg.predicate { Some(Box::new(|ns: &chitchat::NodeState| ns.get("READY") == Some("true"))) } else { None },
     };
     Chitchat::with_chitchat_id_and_seeds(config, rx, vec![])
 }
@@ -147,7 +155,10 @@ pub fn exec_fd(case: &FdCase, tally: &mut Tally, prop: &str) -> Result<(), Failu
         let mut main = observer(cfg, "obs");
         let mut twin = observer(cfg, "obs");
         let mut now: u128 = 0;
-        let mut hb: u64 = 0;
+        let mut hb: u64 = [0u64, (1u64 << 63) - 3, (1u64 << 63) + 2, u64::MAX - 70_000][case.hb_base as usize % 4];
+        if hb != 0 {
+            tally.label("heartbeats_in_the_upper_half_of_u64");
+        }
         // Observation log (times of strictly increasing heartbeat values).
         let mut fresh_times: Vec<u128> = Vec::new();
         let mut last_dead_eval: Option<u128> = None;
@@ -189,8 +200,11 @@ pub fn exec_fd(case: &FdCase, tally: &mut Tally, prop: &str) -> Result<(), Failu
                     let d = dt_ns(dt, cfg, now, fresh_times.last().copied());
                     advance_ns(d).await;
                     now += d as u128;
-                    if hb >= 1 {
-                        let v = hb.saturating_sub(back as u64).max(1);
+                    // (only once a fresh value has been delivered: with a non-zero counter base the
+                    // base itself has not been observed by anybody yet)
+                    if !fresh_times.is_empty() {
+                        // back >= 200: a tiny value (an old incarnation's counter, a crafted digest)
+                        let v = if back >= 200 { (back as u64 - 199).min(hb) } else { hb.saturating_sub(back as u64).max(1) };
                         if let Err(p) = guard(|| twin.verif_process_message(digest_msg(v, back % 2 == 1))) {
                             return vio(&format!("{prop}/{}", p.signature()), p.describe());
                         }
@@ -361,7 +375,7 @@ fn exec_exact_tight(case: &AccCase, a_sel: u8, k: u8, tally: &mut Tally) -> Resu
         let a_ns: u64 = [250_000_000u64, 500_000_000, 1_000_000_000, 1_500_000_000, 2_000_000_000][a_sel as usize % 5];
         let k = (k % 4 + 1) as u64;
         let b_ns = a_ns * k;
-        let cfg = FdCfgNs { phi: k as f64, window: case.window, max_interval_ns: b_ns, initial_interval_ns: a_ns };
+        let cfg = FdCfgNs { phi: k as f64, window: case.window, max_interval_ns: b_ns, initial_interval_ns: a_ns, predicate: case.window % 5 == 0 };
         let xid = member().to_real();
         let mut node = observer(&cfg, "obs");
         let n = case.arrivals.len().clamp(4, 60) as u64;
@@ -402,7 +416,7 @@ pub fn exec_accuracy(case: &AccCase, tally: &mut Tally) -> Result<(), Failure> {
             tally.discard("phi outside [0.5, 16]");
             return Ok(());
         }
-        let cfg = FdCfgNs { phi, window: case.window, max_interval_ns: case.max_interval_ns, initial_interval_ns: initial };
+        let cfg = FdCfgNs { phi, window: case.window, max_interval_ns: case.max_interval_ns, initial_interval_ns: initial, predicate: case.window % 5 == 0 };
         let xid = member().to_real();
         let mut node = observer(&cfg, "obs");
         let mut hb = 0u64;
@@ -480,8 +494,8 @@ fn log_uniform_ns() -> impl Strategy<Value = u64> {
 }
 
 fn cfg_strategy() -> impl Strategy<Value = FdCfgNs> {
-    (5u32..=160, prop_oneof![2 => 1usize..=4, 2 => 5usize..=50, 1 => 51usize..=1000], log_uniform_ns(), log_uniform_ns())
-        .prop_map(|(phi10, window, max_interval_ns, initial_interval_ns)| FdCfgNs { phi: phi10 as f64 / 10.0, window, max_interval_ns, initial_interval_ns })
+    (5u32..=160, prop_oneof![2 => 1usize..=4, 2 => 5usize..=50, 1 => 51usize..=1000], log_uniform_ns(), log_uniform_ns(), proptest::bool::weighted(0.25))
+        .prop_map(|(phi10, window, max_interval_ns, initial_interval_ns, predicate)| FdCfgNs { phi: phi10 as f64 / 10.0, window, max_interval_ns, initial_interval_ns, predicate })
 }
 
 fn dt_strategy() -> impl Strategy<Value = Dt> {
@@ -510,7 +524,7 @@ fn event_strategy(with_stale: bool) -> BoxedStrategy<FdEv> {
     let fresh = (dt_strategy(), 1u8..4).prop_map(|(dt, inc)| FdEv::Fresh { dt, inc }).boxed();
     let eval = eval_dt_strategy().prop_map(|dt| FdEv::Eval { dt }).boxed();
     if with_stale {
-        let stale = (prop_oneof![3 => dt_strategy(), 1 => (-1i8..=1).prop_map(Dt::ToDeadline)], 0u8..5).prop_map(|(dt, back)| FdEv::Stale { dt, back }).boxed();
+        let stale = (prop_oneof![3 => dt_strategy(), 1 => (-1i8..=1).prop_map(Dt::ToDeadline)], prop_oneof![6 => 0u8..5, 1 => 200u8..204]).prop_map(|(dt, back)| FdEv::Stale { dt, back }).boxed();
         let catchup = prop_oneof![3 => dt_strategy(), 1 => (-1i8..=1).prop_map(Dt::ToDeadline)].prop_map(|dt| FdEv::CatchUp { dt }).boxed();
         let reset = dt_strategy().prop_map(|dt| FdEv::ResetCopy { dt }).boxed();
         prop_oneof![12 => fresh, 8 => stale, 8 => eval, 1 => catchup, 2 => reset].boxed()
@@ -520,7 +534,7 @@ fn event_strategy(with_stale: bool) -> BoxedStrategy<FdEv> {
 }
 
 pub fn case_strategy(max_events: usize, with_stale: bool) -> impl Strategy<Value = FdCase> {
-    (cfg_strategy(), proptest::collection::vec(event_strategy(with_stale), 1..=max_events)).prop_map(|(cfg, events)| FdCase { cfg, events })
+    (cfg_strategy(), proptest::collection::vec(event_strategy(with_stale), 1..=max_events), prop_oneof![5 => Just(0u8), 1 => 1u8..4]).prop_map(|(cfg, events, hb_base)| FdCase { cfg, events, hb_base })
 }
 
 pub fn acc_strategy(max_arrivals: usize) -> impl Strategy<Value = AccCase> {
